@@ -348,8 +348,9 @@ impl<L: ChainListener> ChainTracker<L> {
                     supplied_prev_headers.0.block_hash().to_string()
                 ));
             }
-            self.headers.pop_front();
         };
+        // the remembered header is only dropped once the removal is validated (see below)
+        let have_prev_header = !self.headers.is_empty();
 
         let mut prev_headers = supplied_prev_headers;
 
@@ -378,6 +379,10 @@ impl<L: ChainListener> ChainTracker<L> {
                 )),
             ProofType::ExternalBlock() => self.notify_listeners_remove(None, tip_block_hash),
         };
+
+        if have_prev_header {
+            self.headers.pop_front();
+        }
 
         info!("removed block {}: {}", self.height, &self.tip.0.block_hash());
         mem::swap(&mut self.tip, &mut prev_headers);
